@@ -36,6 +36,8 @@ class X(operator.Operator):
         params = common.map_arrays(tau=tau, T1=T1, T2=T2, g=g)
         if np.any(np.asarray(tau) < 0):
             raise ValueError("Cannot have negative time")
+        if any(np.any(np.asarray(T) < 0) for T in (T1, T2) if T is not None):
+            raise ValueError("Cannot have negative relaxation time")
 
         if common.isscalar(khi):
             # if khi is scalar, assume 2 compartments
